@@ -33,6 +33,7 @@ const Row kRows[] = {
   {OP_CASTRT, {"cast", C_ELEM, A_NONE, 0, true, false, false}},
   {OP_COEFFS, {"coeffs", C_ELEM, A_NONE, 0, true, false, false}},
   {OP_DATAPTR, {"data()", C_ELEM, A_NONE, 0, true, false, false}},
+  {OP_ACCESSORS, {"accessors", C_ELEM, A_NONE, 0, true, false, false}},
 
   {OP_EXP, {"exp", C_TAN, A_NONE, 1, true, false, false}},
   {OP_RETRACT, {"retract", C_TAN, A_NONE, 1, true, false, false}},
@@ -61,6 +62,7 @@ const Row kRows[] = {
   {OP_T_INNERW_M, {"t.innerWeights", C_TAN, A_NONE, 0, true, false, true}},
   {OP_T_CASTRT, {"t.cast", C_TAN, A_NONE, 0, true, false, false}},
   {OP_JT_MUL, {"J*t", C_TAN, A_NONE, 0, true, false, true}},
+  {OP_T_ACCESSORS, {"t.accessors", C_TAN, A_NONE, 0, true, false, false}},
 
   {OP_IDENTITY, {"Identity", C_STATIC, A_NONE, 0, true, false, true}},
   {OP_ZERO, {"Zero", C_STATIC, A_NONE, 0, true, false, true}},
@@ -92,6 +94,7 @@ const Row kRows[] = {
   {OP_M_ASSIGN_EIGEN, {"X=vector", C_MUT_E, A_ELEM, 0, false, false, false}},
   {OP_M_MOVE_ASSIGN, {"X=move(Y)", C_MUT_E, A_ELEM, 0, false, false, false}},
   {OP_M_SUBVIEW_WRITE, {"subview-write", C_MUT_E, A_ELEM, 0, false, false, false}},
+  {OP_M_SETTERS, {"setters", C_MUT_E, A_ELEM, 0, false, false, false}},
 
   {OP_TM_ASSIGN, {"t=u", C_MUT_T, A_TAN, 0, false, false, false}},
   {OP_TM_SETZERO, {"t.setZero", C_MUT_T, A_NONE, 0, false, false, false}},
@@ -105,6 +108,7 @@ const Row kRows[] = {
   {OP_TM_ASSIGN_EIGEN, {"t=vector", C_MUT_T, A_TAN, 0, false, false, false}},
   {OP_TM_COEFFWRITE, {"t.coeffs()(i)=", C_MUT_T, A_TAN, 0, false, false, false}},
   {OP_TM_SETVEE, {"t.setVee", C_MUT_T, A_TAN, 0, false, false, false}},
+  {OP_TM_BLOCKSET, {"t.blocks=", C_MUT_T, A_TAN, 0, false, false, false}},
 };
 
 OpInfo g_table[OP__END];
